@@ -11,7 +11,7 @@ def one(pd):
     d = os.path.dirname(pd)
     rel = os.path.relpath(d, base)
     prop = rel[:3]
-    kind = 'light' if os.path.basename(d).startswith(('l', 'r', 'p')) else 'break'
+    kind = 'light' if os.path.basename(d).startswith(('l', 'r', 'p', 's')) else 'break'
     tmp = tempfile.mkdtemp(prefix='pvsseed4')
     try:
         subprocess.check_call('git -C /repo archive HEAD pero_ocr user_scripts | tar -x -C %s' % tmp, shell=True)
